@@ -1,6 +1,9 @@
 """Property -> units / harnesses / stated assumptions.  Units are /verif/units/<name>.vrs."""
 
 UNIT_NOTES = {
+    "scalars": "L5 scalar kernels: get_gas_limit, get_inscription_byte_len, get_evm_spec, use_rlp_hash_for_tx_hash, generate_block_hash (+ lemma: parked transactions keep at most their allowance)",
+    "precompile": "C09 build_lock_script of the locked-pkscript helper: panic-freedom for every pkscript and lock count",
+    "evmctx": "C19 engine/evm.rs get_evm over shim structs with revm's public field names",
     "engine": "L5 control skeletons of engine/engine.rs (SharedData sequential, closures -> guarded mutation sites N10): require_no_waiting_txes, validate_next_tx (closure inlined), commit_to_db, reorg, clear_caches, mine_blocks, add_raw_tx_to_block",
     "payload": "C15/C09/C05 api/types.rs: decode_bytes_from_inscription_data, decode_zstd_into_bytes, Base64Bytes::value, RawBytes::value, select_bytes + encoding-independence lemma",
     "configdb": "C20 global/database.rs: ConfigDatabase::{get,set,flush,validate} over the DB shim and validate_config_database with the file system as uninterpreted predicates",
@@ -9,7 +12,6 @@ UNIT_NOTES = {
     "blockdb": "L3 block-keyed table BlockDatabase<V>: get/set/commit/clear_cache/last_key/reorg over the DB shim (view = cache over disk)",
     "table": "L3 versioned table BlockCachedDatabase<K,V,C> over the DB shim: latest/set/unset/retrieve_cache/clear_cache (+commit/reorg/get_range/all)",
     "history": "L2 per-key history BlockHistoryCacheData<V>: new/latest/set/unset/reorg/is_old/remove_old_values against the abstract Map<u64,Option<V>> model",
-    "scalars": "L5 scalar kernels: get_gas_limit, get_inscription_byte_len (+ lemma: parked transactions keep at most their allowance)",
 }
 
 COMMON_TRUST = ("Trusted: Verus/Z3/rustc; vstd's std specs; the prelude's assume_specification / external_body wrappers for std "
@@ -101,13 +103,65 @@ PROPS["C18"] = {
     ],
 }
 
+PROPS["C02"] = {
+    "units": ["scalars", "dbfacade", "table"],
+    "kani": [],
+    "level_text": "Functional postconditions `result == pure function of the arguments` on the consensus-path kernels: gas allowance and its inverse, fork schedule (Prague from 923369 / 275000, RLP hash from 929000) with the constants pinned, generate_block_hash, the (block,index) key, eth_getLogs output as a sequence (order included) over the range scan contract, scan results in encoded-key order; DB_VERSION/PROTOCOL_VERSION pinned under C20. A result that depended on HashMap iteration order could not satisfy these postconditions (that is how D4/D5 were found).",
+    "level_note": COMMON_TRUST + "keccak/merkle/bloom are uninterpreted (determinism inside those libraries assumed); revm, serde_json field order, trace string sorting (closure), generate_block/generate_raw_block bodies (merkle, bloom, revm types) are not under contract; get_range/all contracts assumed (stage 2).",
+    "assumptions": ["revm / alloy / serde determinism", "table get_range/all contracts assumed (stage 2)", "generate_block and generate_raw_block bodies not under contract"],
+}
+PROPS["C04"] = {
+    "units": ["table", "blockdb", "dbfacade"],
+    "kani": [],
+    "level_text": "Write-order kernel only: inside BlockCachedDatabase::commit the history row of a key is (asserted) on disk before its latest-value row is written, with a loop invariant that rows of untouched keys are unchanged and commit preserves every read also on Err; commit_changes makes the three block-keyed stores durable (asserted) before the first versioned table is committed; BlockDatabase::reorg bounds its deletions by its own last_key and never invents a row on Err.",
+    "level_note": COMMON_TRUST + "Narrow: a crash point is an intermediate state; only the two intermediate assertions and the per-function Err postconditions are proved. NOT covered: the composition over 15 tables into `reopen + reorg(D) yields the state as of D`, ConfigDatabase write-through, RocksDB's own atomicity and WAL (assumed: each put/delete atomic and durable in program order), crashes inside reorg beyond commit.",
+    "assumptions": ["each put/delete is atomic and durable in program order (DB shim)", "multi-table recovery is argued in DESIGN.md, not checked"],
+}
+PROPS["C05"] = {
+    "units": ["engine", "dbfacade", "payload"],
+    "kani": [],
+    "level_text": "Proof of the rejection kernel: validate_next_tx (closure inlined) accepts iff tx_idx equals the number of transactions in the block, timestamp/hash equal those of the block under construction, and the block does not exist; commit_to_db / reorg / mine_blocks / finalise_block / add_tx_to_block reach their store mutation sites only behind those guards (site preconditions, rule N10); set_block_hash / set_tx_receipt: an existing hash or height gives Err and *final == *old; select_bytes accepts exactly one of the two encodings.",
+    "level_note": COMMON_TRUST + "SharedData is modelled sequentially; closure bodies handed to write_fn (EVM run, receipt bookkeeping) are replaced by guarded sites, so `leaves the instance exactly as it was` is NOT proved for errors raised after partial execution inside those closures (revm). Handlers in rpc_server.rs are async and outside the kernel.",
+    "assumptions": ["closure bodies passed to SharedData::write_fn are outside the proof (N10)", "sequential model of SharedData"],
+}
+PROPS["C06"] = {
+    "units": ["dbfacade"],
+    "kani": [],
+    "level_text": "Proof on Brc20ProgDatabase::set_tx_receipt: after Ok the transaction row, the receipt row, the (block,index)->hash row and the inscription->hash row all carry the same hash, block hash, block number and index; set_block_hash: number->hash and hash->number invert each other; eth_getLogs order (C18).",
+    "level_note": COMMON_TRUST + "Narrow. Rule N29 keeps only the index arguments of TxReceiptED::new / TxED::new (the other arguments are revm/alloy values). NOT covered: log indexes and cumulative gas (closure in add_tx_to_block), bloom and merkle root (uninterpreted libraries), raw block encodings (alloy RLP), generate_block / generate_raw_block bodies, `receipt returned is the one later served` (engine closure).",
+    "assumptions": ["N29: constructors reduced to their index arguments", "generate_block / generate_raw_block not under contract"],
+}
+PROPS["C08"] = {
+    "units": ["engine", "dbfacade"],
+    "kani": [],
+    "level_text": "Proof on the real add_raw_tx_to_block control skeleton: a transaction is parked only with account_nonce < nonce < account_nonce + 10, executed first only with nonce == account nonce (or none), every drained transaction is younger than 10 blocks and receives transaction index = index of the call + receipts produced so far (loop invariant), nonces advance by one per receipt; clear_txpool drops a parked transaction iff it has no arrival block or arrived >= 10 blocks ago and leaves every other one untouched.",
+    "level_note": COMMON_TRUST + "Closures are guarded sites (N10); revm's own nonce check, signature recovery, chain-id filter (alloy) and txpool_content are outside. Termination of the drain loop is not proved (it ends when the pool has no next nonce).",
+    "assumptions": ["nonces, transaction indexes and arrival blocks are < 2^63", "drain-loop termination not proved"],
+}
+PROPS["C09"] = {
+    "units": ["payload", "precompile", "scalars", "engine", "dbfacade", "blockdb"],
+    "kani": [],
+    "level_text": "Panic-freedom and termination, with NO precondition on request-controlled arguments, of the extracted request-facing functions: payload decoders (index, slice, arithmetic), select_bytes, build_lock_script (any pkscript / lock count), gas helpers, fork schedule, mine_blocks (count 0, loop bound), block-table loops with decreases, get_logs loops; reachable panic!/expect/index are preconditions Verus must discharge.",
+    "level_note": COMMON_TRUST + "State-dependent ranges (heights, nonces < 2^63; from <= to in get_logs) are explicit preconditions. NOT covered: EVM execution (revm), async handlers, ABI decoding (sol! macro), bitcoin / bip322 crates, the mem::take wedge (needs a panic inside revm), decoders fed from the database.",
+    "assumptions": ["heights/nonces < 2^63", "external crates (revm, alloy sol types, bitcoin, bip322) outside the kernel"],
+}
+PROPS["C16"]["units"] = ["scalars", "engine"]
+PROPS["C16"]["level_text"] = PROPS["C16"]["level_text"] + " In add_tx_to_block the value handed to the EVM site and to the receipt is get_gas_limit(inscription_byte_len) (site precondition)."
+PROPS["C19"] = {
+    "units": ["evmctx", "scalars"],
+    "kani": [],
+    "level_text": "Proof on the real get_evm body over shim structs carrying revm's public field names: block number, timestamp, prevrandao = supplied hash, basefee 0, difficulty 0, chain id (cfg and tx) = configured, gas price 0, value 0, spec = fork schedule of the height, Bitcoin txid handed to the precompile provider = the supplied one; fork schedule table proved in unit scalars.",
+    "level_note": "Narrow. Rule N32 replaces the generic revm type expressions of the signature and of one `let` by the shim names; field assignments are verbatim. Assumed: Context::new defaults, Evm::new_with_inspector keeps ctx and precompiles, BRC20Precompiles::new stores the txid. NOT covered: caller/origin/BLOCKHASH/txid of drained transactions (closures + revm), deposits/withdrawals running as the indexer address.",
+    "assumptions": ["revm constructors keep what they are given (shim contracts)", "N32: generic revm types replaced by shim structs with the same field names"],
+}
+
 NOT_APPLICABLE = {
     "C07": "conservation is a property of Solidity/EVM bytecode executed by revm; neither Verus nor Kani has a semantics for it, no contract within reach can state it",
     "C10": "non-mutation is the frame condition of revm's replay/transact_one inside async fns; it could only be assumed, not proved, on code within reach",
     "C11": "quantifies over thread schedules; Kani has no threads, Verus would need permission types threaded through the code (different code)",
     "C17": "relational equivalence of two entry points of an external interpreter over arbitrary bytecode; no contract on code within reach expresses it",
 }
-PENDING = ["C02", "C04", "C05", "C06", "C08", "C09", "C14", "C19"]
+PENDING = ["C14"]
 for _p in PENDING:
     if _p not in PROPS:
         NOT_APPLICABLE[_p] = "check under construction in this commit (DESIGN.md 0); claimed once its units discharge"
